@@ -35,7 +35,8 @@ FUNCTIONS = ["ioflo.aio.http.clienting.Patron.redirect", "ioflo.aio.http.clienti
              "ioflo.aio.http.clienting.Respondent.parseHead", "ioflo.aio.http.httping.normalizeHostPort",
              "ioflo.aio.tcp.clienting.Client.accept", "ioflo.aio.tcp.clienting.ClientTls.connect"]
 ASSUMPTIONS = [
-    "fake network: servers at 127.0.0.1 and 127.0.0.2 on ports 80/8080/8081 (plain) and 443/8443/8444 (TLS); 'localhost' names 127.0.0.1; "
+    "fake network: servers at 127.0.0.1 and 127.0.0.2 on ports 80/8080/8081 (plain), 443/8443/8444 (TLS) and 9090 (serves both schemes, "
+    "so that a Location can change only the scheme); 'localhost' names 127.0.0.1; "
     "connect succeeds at once, send never blocks; a redirect response may arrive in two receives (symbolic cut and delay)",
     "ssl double: wrap_socket marks the connection TLS, the handshake succeeds iff the server port is a TLS port; no certificates",
     "the original request is a GET without body; request method / body preservation across 303 vs 307 is not part of the statement and not checked",
@@ -47,6 +48,7 @@ ASSUMPTIONS = [
     "store stamp never advanced (no timers); the client is serviced for a fixed 6*(n+1)+8 rounds",
 ]
 
+DUAL_PORT = 9090
 PLAIN_PORTS = (80, 8080, 8081)
 TLS_PORTS = (443, 8443, 8444)
 IPS = ("127.0.0.1", "127.0.0.2")
@@ -86,10 +88,17 @@ FORMS = [
     ("upgrade", "scheme-upgrade", lambda s, h, p, j: None if s == "https" else "https://%s:8443/sec%d" % (h, j)),
     ("upgrade-other-host", "scheme-upgrade", lambda s, h, p, j: None if s == "https" else "https://%s/sec%d" % (_other_host(h), j)),
     ("downgrade", "scheme-downgrade", lambda s, h, p, j: None if s == "http" else "http://%s:8080/plain%d" % (h, j)),
+    # scheme changes ONLY: same host, same explicit port (DUAL_PORT serves both schemes), see FakeNet.add(tls="both")
+    ("abs-dual-port", "absolute", lambda s, h, p, j: None if p == DUAL_PORT else "%s://%s:%d/dual%d" % (s, h, DUAL_PORT, j)),
+    ("upgrade-same-port", "scheme-upgrade",
+     lambda s, h, p, j: "https://%s:%d/secure%d?token=abc" % (h, p, j) if (s == "http" and p == DUAL_PORT) else None),
+    ("downgrade-same-port", "scheme-downgrade",
+     lambda s, h, p, j: "http://%s:%d/plain%d" % (h, p, j) if (s == "https" and p == DUAL_PORT) else None),
 ]
 FORM_NAMES = [f[0] for f in FORMS]
 BASES = {"http": "http://127.0.0.1:8080/a/b?x=1", "https": "https://localhost:8443/a/b?x=1",
-         "http-name": "http://localhost:8081/top"}
+         "http-name": "http://localhost:8081/top",
+         "http-dual": "http://127.0.0.1:9090/start", "https-dual": "https://127.0.0.1:9090/start"}
 
 
 def url_parts(url):
@@ -159,6 +168,7 @@ def _follow(sym, base, hops, urls):
             net.add(ip, p, tls=False)
         for p in TLS_PORTS:
             net.add(ip, p, tls=True)
+        net.add(ip, DUAL_PORT, tls="both")
     install_fake_net(net)
     try:
         scheme, host, port, path, query = url_parts(urls[0])
@@ -276,13 +286,15 @@ def obligations(tier):
         out.append(Ob(name, h, dict(base=base, n=n, forms=forms, sizes=sizes), budget=budget, covers=covers, bounds=b))
 
     add("chain0/http", "http", 0, allf, "none", [])
-    for base in ("http", "https", "http-name"):
+    for base in ("http", "https", "http-name", "http-dual", "https-dual"):
         # one obligation per Location form of the first hop (stable shards: one defect class per shard)
         for fi in allf:
             name, cls, build = FORMS[fi]
             if build(*url_parts(BASES[base])[:3], 0) is None:
                 continue
             if base == "http-name" and quick and name not in ("abs-other-name", "abs-path", "upgrade"):
+                continue
+            if base.endswith("-dual") and name not in ("upgrade-same-port", "downgrade-same-port", "abs-same", "abs-path"):
                 continue
             if cls == "absolute":
                 covers = ["followed", "split-redirect-response"]
